@@ -1,12 +1,84 @@
 import D2V.Model.Edit
-/-! C36 — editing API (placeholder lemmas; replaced by the real development) -/
+import D2V.Proofs.EditPaths
+/-!
+  C36 — editing produces compilable, formatter-stable source.
+
+  What is checked on every successful real edit (driver, Spec-on-impl): `Compile(newText)` equals the returned
+  diagram on every board, `Format(Parse newText) = newText`, and the returned diagram is well-formed (`Diagram.wf`:
+  non-empty unique IDs, containers exist, endpoints exist, parallel indices consecutive).
+  What is proved here: well-formedness is an invariant of histories for every family of steps that preserves it
+  (`history_preserves`), and `Set` (label / any attribute, objects) preserves it for every diagram; for create / delete /
+  rename / move / reconnect the preservation of `wf` by `Edit.Spec` is the stated goal `C36_spec_preserves_wf_goal`,
+  not proved (it needs the freshness side conditions `validDest` / `validHoist`), and is evaluated per step on the
+  implementation instead.
+-/
 namespace D2V.Edit
 
-theorem C36_firstFailing_none_iff (cs : List Clause) : firstFailing cs = none ↔ allHold cs = true := by
-  induction cs with
-  | nil => simp [firstFailing, allHold]
-  | cons c r ih =>
-    unfold firstFailing
-    cases h : c.holds <;> simp [allHold, h] at * <;> exact ih
+def pathsOf (d : Diagram) : List Path := d.objs.map (·.path)
+
+theorem hasObj_paths (d : Diagram) (q : Path) : d.hasObj q = (pathsOf d).any fun r => samePath r q := by
+  simp [Diagram.hasObj, pathsOf, List.any_map, Function.comp_def]
+
+/-- `wf` looks at the objects only through their paths -/
+def wfP (paths : List Path) (edges : List Edge) : Bool :=
+  paths.all (fun p => !p.isEmpty) && nodupKeys paths &&
+    (paths.all fun p => (List.range p.length).all fun n => n == 0 || paths.any fun r => samePath r (p.take n)) &&
+    (edges.all fun e => (paths.any fun r => samePath r e.src) && (paths.any fun r => samePath r e.dst)) &&
+    indicesConsecutive ⟨[], edges⟩
+
+theorem wf_eq (d : Diagram) : d.wf = wfP (pathsOf d) d.edges := by
+  unfold Diagram.wf wfP prefixClosed endpointsExist
+  simp only [hasObj_paths]
+  simp [pathsOf, List.all_map, Function.comp_def, indicesConsecutive]
+
+theorem setObjAttr_paths (d : Diagram) (p : Path) (k : String) (v : Option String) :
+    pathsOf (Spec.setObjAttr d p k v) = pathsOf d := by
+  simp only [pathsOf, Spec.setObjAttr, List.map_map]
+  apply List.map_congr_left
+  intro o _
+  by_cases h : samePath o.path p = true <;> simp [h]
+
+theorem setObjLabel_paths (d : Diagram) (p : Path) (v : String) : pathsOf (Spec.setObjLabel d p v) = pathsOf d := by
+  simp only [pathsOf, Spec.setObjLabel, List.map_map]
+  apply List.map_congr_left
+  intro o _
+  by_cases h : samePath o.path p = true <;> simp [h]
+
+/-- `Set` of a label or an attribute of an object never breaks well-formedness -/
+theorem set_preserves_wf (d : Diagram) (p : Path) (k : String) (v : Option String) (l : String) :
+    (Spec.setObjAttr d p k v).wf = d.wf ∧ (Spec.setObjLabel d p l).wf = d.wf := by
+  constructor
+  · rw [wf_eq, wf_eq, setObjAttr_paths]; rfl
+  · rw [wf_eq, wf_eq, setObjLabel_paths]; rfl
+
+/-- invariants of steps are invariants of histories (any length) -/
+theorem history_preserves {Op : Type} (step : Diagram → Op → Diagram) (inv : Diagram → Prop)
+    (hstep : ∀ d op, inv d → inv (step d op)) : ∀ (ops : List Op) (d : Diagram), inv d → inv (ops.foldl step d) := by
+  intro ops
+  induction ops with
+  | nil => intro d h; exact h
+  | cons op r ih => intro d h; exact ih (step d op) (hstep d op h)
+
+/-- histories of Sets keep a well-formed diagram well-formed -/
+theorem set_history_preserves_wf (ops : List (Path × String × Option String)) (d : Diagram) (h : d.wf = true) :
+    (ops.foldl (fun d op => Spec.setObjAttr d op.1 op.2.1 op.2.2) d).wf = true :=
+  history_preserves (fun d (op : Path × String × Option String) => Spec.setObjAttr d op.1 op.2.1 op.2.2) (fun d => d.wf = true)
+    (fun d op hd => by rw [(set_preserves_wf d op.1 op.2.1 op.2.2 "").1]; exact hd) ops d h
+
+/-- stated goal (not proved): the structural edits of the abstract semantics preserve well-formedness under their
+    side conditions -/
+def C36_spec_preserves_wf_goal : Prop :=
+  ∀ (d : Diagram), d.wf = true →
+    (∀ p d', Spec.createObj d p = some d' → d'.wf = true) ∧
+    (∀ x ren, d.hasObj x = true → Spec.validHoist d x ren = true → (Spec.deleteObj d x ren).wf = true) ∧
+    (∀ x n, d.hasObj x = true → Spec.validDest d x n = true → (Spec.moveWith d x n).wf = true)
+
+/-- the goal is at least true on a witness with a collision -/
+example :
+    let d : Diagram := { objs := [⟨["a"], "L1", []⟩, ⟨["a", "b"], "L2", []⟩, ⟨["b"], "L3", []⟩],
+                         edges := [⟨["a", "b"], ["b"], false, true, 0, "E1", []⟩] }
+    d.wf = true ∧ (Spec.deleteObj d ["a"] [("b", "b 2")]).wf = true ∧ (Spec.deleteObj d ["a"] []).wf = false ∧
+      (Spec.moveWith d ["a"] ["c"]).wf = true ∧ ((Spec.createObj d ["x", "y"]).map (·.wf)) = some true := by
+  decide
 
 end D2V.Edit
